@@ -291,6 +291,7 @@ def legs_minipy(res, r, tier):
 
 # ------------------------------------------------------------------------------------------------ execution oracle
 TEMPLATES = [
+    "def build(flag):\n    class Settings:\n        if flag:\n            timeout: int = 30\n            retries: int = 3\n        else:\n            timeout: int = 5\n        with open(__file__) if False else memoryview(b'') as handle:\n            buffered: bool = True\n        try:\n            verbose: bool = False\n        finally:\n            pass\n    return Settings\ninstance = build(True)()\nprint(instance.timeout, instance.retries, build(False).timeout, instance.buffered, instance.verbose)\n",
     # closures, defaults, keyword calls
     "def make_counter(start, step=1):\n    count = start\n    def increment(times=1):\n        nonlocal count\n        count += step * times\n        return count\n    return increment\ncounter = make_counter(10, step=2)\nprint(counter(), counter(times=3))\nresult = counter(times=0)\n",
     "total = 0\ndef add(amount, *, scale=1):\n    global total\n    total += amount * scale\n    return total\nprint(add(2), add(3, scale=10), add(amount=1))\n",
@@ -342,7 +343,7 @@ def _obs(ns):
         elif isinstance(v, types.ModuleType):
             out[k] = ['module', v.__name__]
         else:
-            out[k] = ['object', type(v).__name__]
+            out[k] = ['object']      # the class may be a renamed local: its name is a reflective view
     return out
 src = sys.stdin.read()
 ns = {'__name__': '__main__'}
@@ -368,6 +369,49 @@ def execute(src):
         return json.loads(p.stdout) if p.returncode == 0 and p.stdout else {'crash': p.stderr.decode()[-300:]}
     except subprocess.TimeoutExpired:
         return {'timeout': True}
+
+
+PACKAGE = {
+    'shop/__init__.py': "from .config import RATE\nfrom ..settings import CURRENCY\nfrom . import pricing\nfrom .pricing import total as compute_total\n",
+    'shop/config.py': "RATE = 0.07\nCURRENCY = 'local'\n",
+    'shop/pricing.py': "from .config import RATE\nfrom ..settings import RATE as OUTER_RATE\nfrom .. import settings\ndef total(amount):\n    return round(amount * (1 + RATE), 2), OUTER_RATE, settings.CURRENCY\n",
+    'settings.py': "RATE = 0.2\nCURRENCY = 'EUR'\n",
+    '__init__.py': "",
+    'run.py': "import sys, os\nsys.path.insert(0, os.path.dirname(os.path.dirname(os.path.abspath(__file__))))\nimport importlib\npkg = importlib.import_module(os.path.basename(os.path.dirname(os.path.abspath(__file__))))\nshop = importlib.import_module(pkg.__name__ + '.shop')\nprint(shop.compute_total(14), shop.RATE, shop.CURRENCY)\n",
+}
+
+
+def package_run(files):
+    import tempfile, shutil
+    d = tempfile.mkdtemp(prefix='pmpkg-', dir=common.SCRATCH_ROOT)
+    try:
+        root = os.path.join(d, 'pkgroot')
+        for rel, src in files.items():
+            p = os.path.join(root, rel)
+            os.makedirs(os.path.dirname(p), exist_ok=True)
+            open(p, 'w').write(src)
+        p = subprocess.run([common.PY, '-I', os.path.join(root, 'run.py')], stdout=subprocess.PIPE, stderr=subprocess.PIPE, timeout=60)
+        return p.stdout.decode(), p.returncode
+    finally:
+        shutil.rmtree(d, ignore_errors=True)
+
+
+def oracle_package(res, r, tier):
+    import python_minifier
+    ref = package_run(PACKAGE)
+    n = 0
+    sets = [dict()] + [{o: False} for o in SAFE if o != 'remove_annotations'] + [{o: (r.random() < 0.5) for o in SAFE if o != 'remove_annotations'} for _ in range(2 if tier == 'quick' else 20)]
+    for o in sets:
+        n += 1
+        try:
+            mini = {rel: python_minifier.minify(src, **o) for rel, src in PACKAGE.items()}
+        except Exception as e:   # noqa
+            res.add_violation('c01-minify-raises', 'minify raised %s on a package module' % type(e).__name__, {'options': o})
+            continue
+        got = package_run(mini)
+        if got != ref:
+            res.add_violation('c01-behaviour-differs:package', 'a package with relative imports behaves differently after minifying its modules', {'options': o, 'original': ref, 'minified': got, 'files': mini})
+    return n
 
 
 def oracle(res, r, tier):
@@ -419,7 +463,10 @@ def oracle(res, r, tier):
                 continue
             if ob != ref:
                 diff = [k for k in ('stdout', 'ending', 'namespace') if ob.get(k) != ref.get(k)]
-                res.add_violation('c01-behaviour-differs:' + '+'.join(diff), 'the minified module behaves differently (%s)' % ', '.join(diff),
+                sig = 'c01-behaviour-differs:' + '+'.join(diff)
+                if ', /' in src and o.get('convert_posargs_to_args', True) and o.get('rename_locals', True) is False:
+                    sig = 'c01-posonly-made-keyword-passable'      # the documented "almost always safe" transform, see KNOWN_FINDINGS
+                res.add_violation(sig, 'the minified module behaves differently (%s)' % ', '.join(diff),
                                   {'source': src, 'options': o, 'output': out, 'original': {k: ref.get(k) for k in diff}, 'minified': {k: ob.get(k) for k in diff} if isinstance(ob, dict) else ob})
     return n
 
@@ -434,7 +481,7 @@ def run(pid, tier):
     eff = tier if (not res.broken or tier == 'thorough') else 'search'
     with common.coq_lock():
         nE, nM, stats = legs_minipy(res, r, eff)
-    nO = oracle(res, r, eff)
+    nO = oracle(res, r, eff) + oracle_package(res, r, eff)
     res.samples = [TEMPLATES[0], 'alpha = 3\nwhile (alpha < 5):\n    print(repr(alpha))\n    alpha = (alpha + 1)\n']
     res.coverage.update({'leg_E_programs': nE, 'leg_M_programs': nM, 'minipy_program_stats': stats, 'oracle_executions': nO, 'evaluations': nE + nM + nO, 'distinct_nontrivial': nE + len(TEMPLATES),
                          'rule': 'leg E/M: random MiniPy modules (assign, print, del, pass, if/else, bounded while; ints and strings; deliberately unbound names and type errors); oracle: %d runnable templates + docs examples x (defaults, each safe switch off, random subsets of the safe switches), executed in fresh interpreters' % len(TEMPLATES)})
